@@ -1857,6 +1857,9 @@ pub struct IntConstCase {
     term: u8,       // 0 space, 1 \relax, 2 ';', 3 'x', 4 two blank tokens (the second from \s)
     #[serde(default)]
     alpha: u8,
+    /// the characters / : @ ` are letters (category 11) while the constant is scanned
+    #[serde(default)]
+    odd_letters: bool,
 }
 
 /// (spelling, value; None = improper constant, TeX reports an error). `\b` is a macro, `~` active.
@@ -1884,7 +1887,12 @@ const ALPHAS: [(&str, Option<i64>); 18] = [
 fn int_const_oracle(c: &IntConstCase, case: &mut Case) -> Verdict {
     let alpha = c.radix % 4 == 3;
     let radix: u32 = [10, 8, 16, 10][(c.radix % 4) as usize];
-    let mut text = String::from("\\def\\b{c}\\def\\s{ }\\count1=");
+    let mut text = String::from("\\def\\b{c}\\def\\s{ }");
+    if c.odd_letters {
+        text.push_str("\\catcode`\\/=11 \\catcode`\\:=11 \\catcode`\\@=11 \\catcode96=11 ");
+        case.class("constant scanned while / : @ ` are letters");
+    }
+    text.push_str("\\count1=");
     c.signs.render(&mut text);
     // valid prefix: upper-case hex digits only (TeX accepts A-F of category 11 or 12, never a-f)
     let mut valid: Vec<u8> = vec![];
@@ -2029,11 +2037,12 @@ fn int_const_strategy() -> impl Strategy<Value = IntConstCase> {
         ],
         0u8..5,
         0u8..18,
+        proptest::bool::weighted(0.15),
     )
-        .prop_map(|(signs, radix, digits, term, alpha)| {
+        .prop_map(|(signs, radix, digits, term, alpha, odd_letters)| {
             // an alphabetic constant is mostly followed by its terminator at once
             let digits = if radix == 3 && alpha % 3 != 0 { String::new() } else if radix == 3 { digits.chars().take(2).collect() } else { digits };
-            IntConstCase { signs, radix, digits, term, alpha }
+            IntConstCase { signs, radix, digits, term, alpha, odd_letters: odd_letters && radix != 3 }
         })
 }
 
